@@ -12,8 +12,8 @@
 EXTENDS ContextModel, Json, IOUtils
 
 \* ---------------- alphabets ---------------------------------------------------------------------
-\* the core alphabet drops the events that the per-step probe already performs (get, read) and three of
-\* the five built-in targets
+\* the core alphabet drops the events that the per-step probe already performs (get, read), three of the
+\* five built-in targets, the nested limit error and the re-entrant eval
 CoreKinds == {"defvar", "deffun", "assign", "delete", "mut_objproto", "mut_arrproto",
               "throw", "loop", "recurse", "syntax", "ieval", "newfn", "set"}
 AlphabetName == IF "ALPHABET" \in DOMAIN IOEnv THEN IOEnv.ALPHABET ELSE "full"
@@ -23,9 +23,10 @@ VARIABLES hist,     \* Enum: the history so far, a sequence of [c, k]
           tid,      \* Trace: index of the trace being validated
           tl,       \* Trace: next event
           tok,      \* Trace: no mismatch so far
-          twhy      \* Trace: first mismatch [at, clause, exp, dev]
-vars == <<cmvars, hist, tid, tl, tok, twhy>>
-NoWhy == [at |-> 0, clause |-> "", c |-> 0, exp |-> <<>>, dev |-> ""]
+          twhy,     \* Trace: first mismatch [at, clause, c, exp]
+          tdevs     \* Trace: named deviations (known findings) that explained an observation
+vars == <<cmvars, hist, tid, tl, tok, twhy, tdevs>>
+NoWhy == [at |-> 0, clause |-> "", c |-> 0, exp |-> <<>>]
 \* the limits of the contexts are part of the specification: the driver reads them from this line
 ASSUME PrintT(ToJson([limits |-> [c \in 1..3 |-> LimitsOf(c)]]))
 
@@ -33,20 +34,20 @@ ASSUME PrintT(ToJson([limits |-> [c \in 1..3 |-> LimitsOf(c)]]))
 \* the value written by event number n is n: every write of a history is distinguishable
 EnumInit == /\ ctx = [c \in Ctxs |-> NewCtx(LimitsOf(c))] /\ twin = <<>> /\ pc = Idle
             /\ evn = 0 /\ actor = 0 /\ last = "none"
-            /\ hist = <<>> /\ tid = 0 /\ tl = 0 /\ tok = TRUE /\ twhy = NoWhy
+            /\ hist = <<>> /\ tid = 0 /\ tl = 0 /\ tok = TRUE /\ twhy = NoWhy /\ tdevs = {}
 EnumExtend == /\ evn < MAXN
               /\ \E c \in Ctxs : \E kd \in Alphabet :
                    /\ Guard(kd, ctx[c])
                    /\ ctx' = [ctx EXCEPT ![c] = RunEvent(ctx[c], kd, evn + 1).st]
                    /\ evn' = evn + 1 /\ actor' = c
                    /\ hist' = Append(hist, [c |-> c, k |-> kd])
-                   /\ UNCHANGED <<twin, pc, last, tid, tl, tok, twhy>>
+                   /\ UNCHANGED <<twin, pc, last, tid, tl, tok, twhy, tdevs>>
 \* a complete history is printed exactly once and not extended.  (No CONSTRAINT is used for this: TLC's
 \* simulator retries for ever when every successor of a state violates a constraint.)
 EnumFinish == /\ evn = MAXN /\ tl = 0
               /\ PrintT(ToJson([h |-> hist]))
               /\ tl' = 1
-              /\ UNCHANGED <<cmvars, hist, tid, tok, twhy>>
+              /\ UNCHANGED <<cmvars, hist, tid, tok, twhy, tdevs>>
 EnumNext == EnumExtend \/ EnumFinish
 
 \* ---------------- Trace -------------------------------------------------------------------------
@@ -55,14 +56,19 @@ Traces == ndJsonDeserialize(IOEnv.OBS_FILE)
 PtrIx == 7 + NT
 ExtraIx == 8 + NT
 
-\* named deviations (known findings, DESIGN 2.3): none is needed on the unchanged tree
+\* named deviations (known findings, DESIGN 2.3): the as-is rule of the engine, exactly where it applies.
+\* Dev_ReentrantPointer: Context.eval ends with `self._current_vm = None` instead of restoring the pointer of the
+\*   evaluation that is still running, so after a re-entrant eval the outer evaluation reports "pointer not set"
+\*   (result 0 of the reenter snippet).  State effects are as specified.
+Deviation(ev, pred) ==
+  IF ev.k = "reenter" /\ ev.o = "value" /\ pred.r = 1 /\ ev.r = 0 THEN "Dev_ReentrantPointer" ELSE ""
 
 \* first failing clause of one event, or "" : pre = model state before, pred = RunEvent's prediction
 Clause(ev, pre, pred, nc) ==
   LET post(c) == IF c = ev.c THEN pred.st ELSE pre[c]
       bad(c)  == ev.pr[c] # Observe(post(c))
   IN IF ev.o \notin pred.os THEN [clause |-> "outcome", c |-> ev.c]
-     ELSE IF pred.r # DontCare /\ ev.r # pred.r THEN [clause |-> "result", c |-> ev.c]
+     ELSE IF pred.r # DontCare /\ ev.r # pred.r /\ Deviation(ev, pred) = "" THEN [clause |-> "result", c |-> ev.c]
      ELSE IF \E c \in 1..nc : ev.pr[c][PtrIx] # 1
           THEN [clause |-> "pointer", c |-> CHOOSE c \in 1..nc : ev.pr[c][PtrIx] # 1]
      ELSE IF \E c \in 1..nc : ev.pr[c][ExtraIx] # 0
@@ -75,7 +81,7 @@ Clause(ev, pre, pred, nc) ==
 TraceInit == /\ tid \in 1..Len(Traces)
              /\ ctx = [c \in 1..Traces[tid].nc |-> NewCtx(LimitsOf(c))]
              /\ twin = <<>> /\ pc = Idle /\ evn = 0 /\ actor = 0 /\ last = "none" /\ hist = <<>>
-             /\ tl = 1 /\ tok = TRUE /\ twhy = NoWhy
+             /\ tl = 1 /\ tok = TRUE /\ twhy = NoWhy /\ tdevs = {}
 TraceNext ==
   /\ tl <= Len(Traces[tid].ev)
   /\ LET tr == Traces[tid]
@@ -84,9 +90,9 @@ TraceNext ==
      IN IF ~enabled
         THEN \* the model cannot take this event at all: the generator left the specification (machinery)
              /\ tok' = FALSE
-             /\ twhy' = IF tok THEN [at |-> tl, clause |-> "unsupported", c |-> ev.c, exp |-> <<>>, dev |-> ""] ELSE twhy
+             /\ twhy' = IF tok THEN [at |-> tl, clause |-> "unsupported", c |-> ev.c, exp |-> <<>>] ELSE twhy
              /\ ctx' = [c \in 1..tr.nc |-> Adopt(ctx[c], ev.pr[c])]
-             /\ UNCHANGED <<evn, actor, last>>
+             /\ UNCHANGED <<evn, actor, last, tdevs>>
         ELSE LET pred == RunEvent(ctx[ev.c], ev.k, ev.x)
                  cl == Clause(ev, ctx, pred, tr.nc)
                  good == cl.clause = ""
@@ -95,17 +101,19 @@ TraceNext ==
                 /\ tok' = (tok /\ good)
                 /\ twhy' = IF tok /\ ~good
                            THEN [at |-> tl, clause |-> cl.clause, c |-> cl.c,
-                                 exp |-> Observe(IF cl.c = ev.c THEN pred.st ELSE ctx[cl.c]), dev |-> ""]
+                                 exp |-> Observe(IF cl.c = ev.c THEN pred.st ELSE ctx[cl.c])]
                            ELSE twhy
+                /\ tdevs' = IF Deviation(ev, pred) # "" THEN tdevs \cup {Deviation(ev, pred)} ELSE tdevs
                 /\ evn' = evn + 1 /\ actor' = ev.c /\ last' = ev.o
   /\ tl' = tl + 1
   /\ UNCHANGED <<twin, pc, hist, tid>>
 \* CONSTRAINT: a fully consumed trace prints its verdict
 TraceEmit == tl <= Len(Traces[tid].ev)
-             \/ PrintT(ToJson([tid |-> Traces[tid].tid, ok |-> tok, n |-> tl - 1, why |-> twhy]))
+             \/ PrintT(ToJson([tid |-> Traces[tid].tid, ok |-> tok, n |-> tl - 1, why |-> twhy,
+                                devs |-> IF tdevs = {} THEN "" ELSE CHOOSE d \in tdevs : TRUE]))
 \* invariants evaluated on every state of every observed execution
 TraceTypeOK ==
   \A c \in DOMAIN ctx : /\ \A nm \in Names : ctx[c].globals[nm].k \in {"absent", "num", "fn"}
                         /\ \A j \in 1..NT : ctx[c].touched[j] \in Nat
-                        /\ ~ctx[c].ptr /\ ctx[c].limits = LimitsOf(c)
+                        /\ ~ctx[c].ptr /\ ctx[c].depth = 0 /\ ctx[c].limits = LimitsOf(c)
 =============================================================================
